@@ -97,3 +97,34 @@ def boxConfigs {n : Nat} (vs : List (Fin n)) (bound : Fin n → Nat) : List (Fin
     [fun _ => 0]
 
 end CF
+
+namespace CF
+variable {n : Nat}
+
+/-- is the underlying simple graph complete? (`bramble_order_lower_bound` counts adjacent pairs) -/
+def isCompleteSimple (G : Graph n) : Bool :=
+  allF fun u => allF fun v => decide (u = v) || decide (0 < G.adj u v)
+
+/-- `bramble_order_lower_bound` -/
+def brambleOrderLowerBound (G : Graph n) : Nat :=
+  if n ≤ 1 then 1 else if isCompleteSimple G then n else minimumDegree G + 1
+
+/-- the entries of `gonality_theoretical_bounds` the property speaks about (after the repair F6:
+    aggregate lower = max of the trivial, minimum-degree and bramble−1 bounds; aggregate upper =
+    min of n−1 and n−α) -/
+structure BoundsReport where
+  trivialUpper : Int
+  independenceUpper : Int
+  minimumDegree : Int
+  brambleOrder : Int
+  lower : Int
+  upper : Int
+
+def boundsReport (G : Graph n) : BoundsReport :=
+  let a : Int := independenceNumber G
+  let md : Int := minimumDegree G
+  let br : Int := brambleOrderLowerBound G
+  { trivialUpper := (n : Int) - 1, independenceUpper := (n : Int) - a, minimumDegree := md, brambleOrder := br,
+    lower := max (max 1 md) (br - 1), upper := min ((n : Int) - 1) ((n : Int) - a) }
+
+end CF
